@@ -391,6 +391,17 @@ def run_case(case):
         if len(snaps) > 400:
             raise kscript.Budget('run exceeds the harness budget')
     dyn.eventFired = tap
+    posted_entries = []
+    orig_post = dyn.postEvent
+
+    def post(t, p, e, ef, *a, **kw):
+        # every posted event function is entered with its own time, and the clock agrees
+        def pw(tt, ee, ef=ef, due=t):
+            posted_entries.append({'due': due, 't': tt, 'e': ee, 'clock': dyn.currentSimulationTime(), 'fn': getattr(ef, '__name__', '?')})
+            return ef(tt, ee)
+        pw.__name__ = getattr(ef, '__name__', 'ef')
+        return orig_post(t, p, e, pw, *a, **kw)
+    dyn.postEvent = post
     orig_rpe = dyn.runPendingEvents
 
     def rpe(t):
@@ -439,6 +450,7 @@ def run_case(case):
         except Exception:
             pass
         del entries[:]
+        del posted_entries[:]
         del snaps[:]
         registration.clear()
         del lspecs[:]
@@ -481,7 +493,7 @@ def run_case(case):
         monitor = {'times': list(res[Monitor.OBSERVATIONS]),
                    'series': [list(res.get(Monitor.timeSeriesForLocus(sp_[0]), [])) for sp_ in lspecs]}
     pr = state.get('pre_results')
-    obs = {'earlier_results_intact': None if pr is None else (repr(pr[0]) == repr(pr[1])),
+    obs = {'posted_entries': posted_entries, 'earlier_results_intact': None if pr is None else (repr(pr[0]) == repr(pr[1])),
            'exception': exc, 'gate_positions': gate_positions, 'entries': entries, 'loci_specs': lspecs, 'monitor': monitor, 'started_rand': state.get('started_rand'), 'snaps': snaps, 'final': final, 'registration': registration,
            'results': {k: v for k, v in res.items() if isinstance(v, (int, float))} if isinstance(res, dict) else {},
            'time': md.get(Dynamics.TIME), 'events': md.get(Dynamics.EVENTS), 'steps': md.get(SynchronousDynamics.TIMESTEPS_WITH_EVENTS, 0),
@@ -782,6 +794,16 @@ def direct_c03(case, obs):
     for en in obs['entries']:
         if en['t'] != en['clock']:
             v.append({'signature': 'clock-differs-from-handler-time:shipped:' + ('posted' if en['posted'] else 'stochastic'), 'detail': en})
+    for en in obs.get('posted_entries', []):
+        if en['t'] != en['due'] or en['clock'] != en['t']:
+            v.append({'signature': 'posted-event-not-entered-at-its-own-time:shipped', 'detail': en})
+            break
+    if case['dynamics'] == 'synchronous' and obs.get('time') is not None and not obs.get('second'):
+        # TIMESTEPS_WITH_EVENTS: the steps in which at least one event was executed (a posted event due by step k runs in step k)
+        import math
+        steps = {max(1, math.ceil(s['t'])) for s in obs['snaps'][1:]}
+        if obs.get('steps') != len(steps):
+            v.append({'signature': 'timesteps-with-events-mismatch:shipped', 'detail': {'reported': obs.get('steps'), 'steps_with_events': sorted(steps)[:12]}})
     taps = obs['snaps'][1:]
     last = 0.0
     for s in taps:
